@@ -252,16 +252,29 @@ def rewind_reset(ctx, chk, R6):
 def first_guard_rejects_whence(fn):
     """True iff the first executable statement of `fn` raises when whence is not one of 0,1,2."""
     body = [s for s in fn.node.body if not (isinstance(s, ast.Expr) and isinstance(s.value, ast.Constant))]
-    for st in body[:3]:
+    for st in body[:6]:
         if isinstance(st, ast.If) and any(isinstance(x, ast.Raise) for x in st.body):
             t = st.test
             if isinstance(t, ast.Compare) and 'whence' in names_in(t.left) and isinstance(t.ops[0], ast.NotIn):
                 vals = [c.value for c in ast.walk(t.comparators[0]) if isinstance(c, ast.Constant)]
                 if sorted(vals) == [0, 1, 2]:
                     return True
-        # only pure statements (assignments of constants / comments) may precede the guard
-        if not isinstance(st, (ast.Assign, ast.AnnAssign)) or any(isinstance(x, ast.Call) for x in ast.walk(st)):
-            return False
+        # only inert statements (assignments of call-free expressions, diagnostics, assertions without calls) may precede the guard
+        if _inert(st):
+            continue
+        return False
+    return False
+
+
+def _inert(st):
+    if isinstance(st, ast.Expr) and isinstance(st.value, ast.Call):
+        f = norm(st.value.func)
+        return f.split('.')[0] in ('logging', 'LOGGER', 'logger', 'log', 'warnings') or '.getLogger(' in f
+    if isinstance(st, (ast.Assign, ast.AnnAssign)):
+        tg = st.targets if isinstance(st, ast.Assign) else [st.target]
+        return all(isinstance(t, ast.Name) for t in tg) and not any(isinstance(x, ast.Call) for x in ast.walk(st))
+    if isinstance(st, (ast.Assert, ast.Pass)):
+        return not any(isinstance(x, ast.Call) for x in ast.walk(st))
     return False
 
 
@@ -644,7 +657,7 @@ def run(ctx, host=None):
         body = [s for s in mf.node.body if not (isinstance(s, ast.Expr) and isinstance(s.value, ast.Constant))]
         first_if = next((s for s in body if isinstance(s, ast.If)), None)
         pre = body[:body.index(first_if)] if first_if is not None else body
-        pure_pre = all(isinstance(s, (ast.Assign, ast.AnnAssign)) and not any(isinstance(x, ast.Call) for x in ast.walk(s)) for s in pre)
+        pure_pre = all(_inert(s) for s in pre)
         if first_if is not None and flag in names_in(first_if.test) and pure_pre:
             chk.ok(R5, f'{ZL}.{mname}', f'if self.{flag}:', detail='tested before anything else', nontrivial=False)
         else:
